@@ -185,13 +185,14 @@ def run_e2e(case, acc, wd):
         # pass 1: count the traced events of all rewrites of an undisturbed run
         r0 = e2e.run_ddsmt(wd, case['text'], case['spec'], case['opts'], mode='launcher',
                            plan=dict(count_write_events=True, stop_on_repeat=True, max_accepts=60),
-                           wall_limit=120)
+                           wall_limit=120, tmp_base=case.get('tmp_base'))
         if r0.timed_out or r0.after is None or not r0.after['write_events']:
             acc.skip('e2e: no rewrite happened / wall limit')
             return False, classes
         n = 1 + case['point'] % r0.after['write_events']
         r = e2e.run_ddsmt(wd, case['text'], case['spec'], case['opts'], mode='launcher',
-                          plan=dict(interrupt_at=n, stop_on_repeat=True, max_accepts=60), wall_limit=120)
+                          plan=dict(interrupt_at=n, stop_on_repeat=True, max_accepts=60), wall_limit=120,
+                          tmp_base=case.get('tmp_base'))
         if r.timed_out or r.after is None:
             acc.skip('e2e: wall limit')
             return False, classes
@@ -216,7 +217,7 @@ def run_e2e(case, acc, wd):
         classes.append('interrupt-after-accept' if nt else 'interrupt-in-first-write')
     else:
         r = e2e.run_ddsmt(wd, case['text'], case['spec'], case['opts'], mode='blackbox',
-                          sigint_after_tests=case['after_tests'], wall_limit=60)
+                          sigint_after_tests=case['after_tests'], wall_limit=60, tmp_base=case.get('tmp_base'))
         if not getattr(r, 'sigint_sent', False):
             acc.skip('e2e: run finished before the signal')
             return False, classes
@@ -242,8 +243,42 @@ def run_e2e(case, acc, wd):
     return nt, classes
 
 
+def other_filesystem_dir(ctx):
+    """A scratch directory on a file system other than the work directory's
+    (tmpfs /dev/shm), or None."""
+    base = '/dev/shm'
+    try:
+        os.makedirs(ctx.workdir, exist_ok=True)
+        if os.path.isdir(base) and os.stat(base).st_dev != os.stat(ctx.workdir).st_dev:
+            d = os.path.join(base, f'verif-c06-{os.getpid()}')
+            os.makedirs(d, exist_ok=True)
+            return d
+    except OSError:
+        pass
+    return None
+
+
 def shard(ctx, acc):
     dd = env.load()
+    # ddSMT's temporary directory lives on another file system than the output
+    # file (as /tmp often does): a writer that stages the new content there and
+    # moves it over the output is not atomic
+    import tempfile
+    shm = other_filesystem_dir(ctx)
+    if shm:
+        tempfile.tempdir = shm
+        acc.count('tmpdir-on-other-filesystem')
+    env.set_options(dd, ['in.smt2', 'out.smt2', '/bin/true'])
+    dd.tmpfiles.init()
+    try:
+        _shard(ctx, acc, dd, shm)
+    finally:
+        tempfile.tempdir = None
+        if shm:
+            shutil.rmtree(shm, ignore_errors=True)
+
+
+def _shard(ctx, acc, dd, shm):
     total = 240 if ctx.quick else 6000
     points = [0]
 
@@ -266,6 +301,7 @@ def shard(ctx, acc):
     def body2(case):
         n[0] += 1
         wd = os.path.join(ctx.workdir, f'e2e{n[0]}')
+        case = dict(case, tmp_base=(shm if shm and n[0] % 2 else None))
         nt, classes = run_e2e(case, acc, wd)
         shutil.rmtree(wd, ignore_errors=True)
         acc.case(dict(case), nontrivial=nt, classes=classes,
@@ -277,6 +313,12 @@ def shard(ctx, acc):
 def replay(case, acc, ctx):
     if case.get('kind') == 'pair':
         dd = env.load()
+        import tempfile
+        shm = other_filesystem_dir(ctx)
+        if shm:
+            tempfile.tempdir = shm
+        env.set_options(dd, ['in.smt2', 'out.smt2', '/bin/true'])
+        dd.tmpfiles.init()
         enumerate_points(dd, case['prev'], case['next'], case['fmt'], ctx.workdir, acc, case)
     else:
         run_e2e(case, acc, os.path.join(ctx.workdir, 'replay'))
